@@ -1215,6 +1215,18 @@ func (c *Ctx) runTags(walker *ssa.Function) {
 		return
 	}
 	sep, _ := core.ConstString(split.Common().Args[1])
+	// modern spelling: `name, rest, found := strings.Cut(tag, ","); … strings.Split(rest, ",")` — every element of the
+	// split is an option part (the name part was cut off before)
+	var cutTag *ssa.Call
+	if ex, ok := core.Strip(split.Common().Args[0]).(*ssa.Extract); ok && ex.Index == 1 {
+		if cc, ok := ex.Tuple.(*ssa.Call); ok && core.CalleeName(cc.Common()) == "strings.Cut" {
+			if s0, isK := core.ConstString(cc.Common().Args[1]); isK && s0 == "," {
+				if tg, isTag := core.Strip(cc.Common().Args[0]).(*ssa.Call); isTag && core.CalleeName(tg.Common()) == "(reflect.StructTag).Get" {
+					cutTag = cc
+				}
+			}
+		}
+	}
 	// option map updates
 	var optUpdates []*ssa.MapUpdate
 	core.Instrs(parser, func(in ssa.Instruction) {
@@ -1260,6 +1272,9 @@ func (c *Ctx) runTags(walker *ssa.Function) {
 							return true
 						}
 					}
+					if cutTag != nil && ia.X == ssa.Value(split) {
+						return true // an element of Split(rest, ","): the rest of the tag after its first comma
+					}
 					return fromSplitRest(ia.X, d+1)
 				}
 			}
@@ -1297,12 +1312,43 @@ func (c *Ctx) runTags(walker *ssa.Function) {
 					if s, ok := core.ConstString(pair[1]); ok && s == "" {
 						// is the compared value part 0 of the split?
 						if ld, ok := pair[0].(*ssa.UnOp); ok {
-							if ia, ok := ld.X.(*ssa.IndexAddr); ok && ia.X == ssa.Value(split) {
+							if ia, ok := ld.X.(*ssa.IndexAddr); ok && ia.X == ssa.Value(split) && cutTag == nil {
 								condOnName = l.String()
 							}
 						}
+						if ex, ok := pair[0].(*ssa.Extract); ok && cutTag != nil && ex.Tuple == ssa.Value(cutTag) && ex.Index == 0 {
+							condOnName = l.String()
+						}
 					}
 				}
+			}
+		}
+	}
+	if cutTag != nil {
+		// the options are parsed exactly when the comma was found: the split sits under `found` (and the tag test), nothing else
+		atCut := map[string]bool{}
+		for _, l := range core.Lits(core.Guards(cutTag.Block())) {
+			atCut[l.String()] = true
+		}
+		for _, l := range core.Lits(core.Guards(split.Block())) {
+			okLit := atCut[l.String()] // already decided where the tag was cut
+			if l.Kind == "bool" && l.Pol {
+				if ex, ok := l.Of.(*ssa.Extract); ok && ex.Tuple == ssa.Value(cutTag) && ex.Index == 2 {
+					okLit = true
+				}
+			}
+			if l.Kind == "cmp" {
+				for _, pair := range [][2]ssa.Value{{l.X, l.Y}, {l.Y, l.X}} {
+					if s0, isK := core.ConstString(pair[1]); isK && s0 == "" {
+						if tg, isTag := core.Strip(pair[0]).(*ssa.Call); isTag && core.CalleeName(tg.Common()) == "(reflect.StructTag).Get" {
+							okLit = true
+						}
+					}
+				}
+			}
+			if !okLit && !core.IsLoopBound(l) {
+				fromRest = false
+				c.R.Note("TAGS", "option parsing of the cut tag is also conditional on %s", l.String())
 			}
 		}
 	}
@@ -2030,6 +2076,15 @@ func (c *Ctx) runStructWalk(walker *ssa.Function) {
 				nameSrc["empty"] = true
 			}
 		case *ssa.Extract:
+			// the part before the first comma: strings.Cut(tag, ",") — part 0 of the split tag in its modern spelling
+			if cc, ok := x.Tuple.(*ssa.Call); ok && x.Index == 0 && core.CalleeName(cc.Common()) == "strings.Cut" {
+				if sep, isK := core.ConstString(cc.Common().Args[1]); isK && sep == "," {
+					if tg, isTag := core.Strip(cc.Common().Args[0]).(*ssa.Call); isTag && core.CalleeName(tg.Common()) == "(reflect.StructTag).Get" {
+						nameSrc["tag-part-0"] = true
+						return
+					}
+				}
+			}
 			// name part returned by a tag-parsing helper: every return is "" (no tag) or part 0 of the split tag
 			if hc, ok := x.Tuple.(*ssa.Call); ok {
 				if h := hc.Common().StaticCallee(); h != nil && c.P.InTarget(h) {
@@ -2168,6 +2223,31 @@ func (c *Ctx) runStructWalk(walker *ssa.Function) {
 					}
 				}
 				walkv(lk.X)
+				// one map made before the loop and reused for every field: its entries survive from field to field unless
+				// it is emptied (clear) at the start of every iteration, unconditionally
+				for _, sv := range core.Sources(lk.X) {
+					mk, isMk := sv.(*ssa.MakeMap)
+					if !isMk {
+						continue
+					}
+					for _, lp := range naturalLoops(g) {
+						if !lp.body[lk.Block()] || lp.body[mk.Block()] {
+							continue
+						}
+						cleared := false
+						for _, ci := range core.Calls(g, "builtin.clear") {
+							if len(ci.Common().Args) != 1 || ci.Common().Args[0] != ssa.Value(mk) || !lp.body[ci.Block()] || !ci.Block().Dominates(lk.Block()) {
+								continue
+							}
+							// inside the loop and dominating the lookup: it runs in the same iteration, before the lookup (a path
+							// from the loop header to the lookup that avoided it would contradict dominance)
+							cleared = true
+						}
+						if !cleared {
+							carried = "the option map consulted at " + p.InstrPos(lk) + " is made once before the loop over the fields and is not emptied in every iteration before it is consulted"
+						}
+					}
+				}
 			})
 		}
 		c.R.Add("STRUCTWALK", "options-per-field", "structWalker", p.Pos(walker.Pos()), carried == "" && nLook > 0,
